@@ -6,8 +6,14 @@ same wire string decoded twice.
 
   cell     as pv.proto (NI:/NF:/NB: numpy scalars, F:nan a fresh float('nan'), NF:nan the shared np.nan)
   PT:<us>  pd.Timestamp        DT:<us>  datetime.date        HF:<q>|HF:nan  np.float32 (value q/4)
+  M8<unit>:<us>  np.datetime64[unit] (unit D|h|s|ms|us|ns) of that instant       NaT:M np.datetime64('NaT')  NaT:m np.timedelta64('NaT')  NaT:P pd.NaT
+  TD:<us>  datetime.timedelta  PD:<us>  pd.Timedelta         m8<unit>:<us>  np.timedelta64[unit] of that duration
   (L ..) (T ..) (D (k v)..)    (DC <n> (k v)..)   n=1 pyg_base.Dict, n=2 pyg_base.dictattr
-  (A <dtype i|f|e|b|U|o> (<shape>) cells..)   e = float32   (S (labels) cells..)   (DF (index) (columns) cells row-major..)
+  (A <dtype i|f|e|b|U|o|Mns|Mus|Ms|MD|mns|mus|mD> (<shape>) cells..)   e = float32, M.. = datetime64[..] (cells T:<us> / NaT:P), m.. = timedelta64[..]
+  (cells TD:<us> / NaT:P)        (S (labels) cells..)   (DF (index) (columns) cells row-major..)
+
+ops: (eq eq x y), (eq in x seq), (eq pyeq x y) native == on plain values, (eq eqr x y) the model answers with the raising reading eqR,
+(eq eqpinned x y) the model answers with eqPinned and the implementation is eq of _eq.py as it was before fix F6c (see pinned_eq).
 """
 import datetime, itertools
 import numpy as np
@@ -23,14 +29,17 @@ RULE = ('distinct (x, y) protocol lines with x and y spelled differently on whic
 TRUSTED = ['correspondence harness (pv.engine, pv.proto) and the generators / decoder of pv.props.c14',
            'Lean driver parser (PygModel/Basic.lean, EqDriver.lean)']
 ASSUMPTIONS = ['CPython == on None/bool/int/float/str/datetime/date and on lists/tuples/dicts of them is the reference function Cell.pyEq / pyEqV (sampled by the pyeq op)',
-               'numpy scalars and pd.Timestamp are == to the python values the wire format identifies them with; np.datetime64 scalars are not generated (day-resolution datetime64 == date and == Timestamp although Timestamp != date, so python == itself is not transitive there)',
+               'numpy scalars, pd.Timestamp and pd.Timedelta are == to the python values the wire format identifies them with; np.datetime64 / np.timedelta64 of any unit are the Timestamp / Timedelta of their instant / duration (that is the repair C14-F6, not an assumption about numpy: numpy own == casts units), pd.NaT is one object',
                'np.vectorize(eq) visits every cell of two equally shaped arrays; list(pd.Index) yields the labels as the python / pandas scalars the wire format spells (a NaN among datetime labels is NaT, which the model treats as the NaN label it is spelled as)',
                'object identity (the `x is y` shortcut) is not modelled: every call decodes fresh objects; the shared np.nan object is generated (NF:nan)',
                'numbers are spelled exactly (ints of any size, floats that are multiples of 1/4 - 2**53 and its neighbours included); np.float32 scalars and arrays hold such values exactly',
-               'dict keys are distinct strings; pandas extension arrays, NaT cells, complex / Decimal NaN, None labels and Series names are outside the universe']
+               'dict keys are distinct strings; pandas extension arrays and their pd.NA, datetime64 units finer than ns, tz-aware timestamps, complex / Decimal NaN, None labels and Series names are outside the universe']
 
 D = datetime.datetime
 BIG = 2 ** 53
+d64, t64, TD = np.datetime64, np.timedelta64, datetime.timedelta
+NS2020 = 1577836800000000000        # 2020-01-01 in ns since 1970: what an M8[ns] cell is as an int
+DAY_NS = 86400 * 10 ** 9
 
 
 # ---------------------------------------------------------------- wire construction
@@ -42,6 +51,16 @@ class W(str):
 def w(x):
     if isinstance(x, W):
         return x
+    if x is pd.NaT:
+        return W('NaT:P')
+    if isinstance(x, np.datetime64):
+        return W('NaT:M' if np.isnat(x) else 'M8%s:%d' % (np.datetime_data(x.dtype)[0], proto.dt2us(x.astype('M8[us]').item())))
+    if isinstance(x, np.timedelta64):
+        return W('NaT:m' if np.isnat(x) else 'm8%s:%d' % (np.datetime_data(x.dtype)[0], x.astype('m8[us]').item() // proto.US))
+    if isinstance(x, pd.Timedelta):
+        return W('PD:%d' % (x.to_pytimedelta() // proto.US))
+    if isinstance(x, datetime.timedelta):
+        return W('TD:%d' % (x // proto.US))
     if isinstance(x, pd.Timestamp):
         return W('PT:%d' % proto.dt2us(x.to_pydatetime()))
     if isinstance(x, F32):
@@ -73,7 +92,8 @@ def DF(idx, cols, *cells):
 
 # ---------------------------------------------------------------- decoding into fresh python objects
 
-DTYPES = {'i': np.int64, 'f': np.float64, 'e': np.float32, 'b': bool, 'U': str}
+DTYPES = {'i': np.int64, 'f': np.float64, 'e': np.float32, 'b': bool, 'U': str,
+          'Mns': 'M8[ns]', 'Mus': 'M8[us]', 'Ms': 'M8[s]', 'MD': 'M8[D]', 'mns': 'm8[ns]', 'mus': 'm8[us]', 'mD': 'm8[D]'}
 
 
 class F32(object):
@@ -87,6 +107,18 @@ def dec_cell(a):
         return pd.Timestamp(proto.us2dt(int(a[3:])))
     if a.startswith('HF:'):
         return np.float32('nan') if a == 'HF:nan' else np.float32(int(a[3:]) / 4)
+    if a.startswith('NaT:'):
+        return {'P': pd.NaT, 'M': np.datetime64('NaT'), 'm': np.timedelta64('NaT')}[a[4:]]
+    if a.startswith('M8'):
+        unit, us = a[2:].split(':')
+        return np.datetime64(proto.us2dt(int(us)), 'us').astype('M8[%s]' % unit)[()]
+    if a.startswith('m8'):
+        unit, us = a[2:].split(':')
+        return np.timedelta64(int(us), 'us').astype('m8[%s]' % unit)[()]
+    if a.startswith('TD:'):
+        return datetime.timedelta(microseconds=int(a[3:]))
+    if a.startswith('PD:'):
+        return pd.Timedelta(microseconds=int(a[3:]))
     return proto.dec_cell(a)
 
 
@@ -110,22 +142,24 @@ def dec(x):
             a = np.empty(len(cells), dtype=object)
             for i, c in enumerate(cells):
                 a[i] = c
+        elif dtype[0] in 'Mm':
+            nat, conv = (np.datetime64('NaT'), np.datetime64) if dtype[0] == 'M' else (np.timedelta64('NaT'), np.timedelta64)
+            a = np.array([nat if c is pd.NaT else conv(c) for c in cells], dtype=DTYPES[dtype])
         else:
             a = np.array(cells, dtype=DTYPES[dtype])
         return a.reshape(shape)
     if head == 'S':
         idx, cells = [dec_cell(i) for i in rest[0]], [dec(c) for c in rest[1:]]
-        s = pd.Series(_column(cells), index=_index(idx))
-        return s
+        return _series(_column(cells), _index(idx))
     if head == 'DF':
         idx, cols = [dec_cell(i) for i in rest[0]], [dec_cell(c) for c in rest[1]]
         cells = [dec(c) for c in rest[2:]]
         n, m = len(idx), len(cols)
-        # eq reads a frame through ONE ndarray (np.vectorize): a float column next to an int column makes that array float64 and
-        # rounds ints beyond 2**53, so such a frame is not the value the wire spells - its columns stay objects instead
-        mixed = _lossy(cells)
-        data = {j: _column([cells[i * m + j] for i in range(n)], mixed) for j in range(m)}
-        df = pd.DataFrame(data, index=_index(idx))
+        # column by column: an int64 column next to a float64 column holds its ints exactly (C14-F8: eq used to read the frame through ONE
+        # float64 array); only a single column mixing floats and ints beyond 2**53 cannot be built as spelled (`_column` keeps it as objects)
+        index = _index(idx)
+        data = {j: _series(_column([cells[i * m + j] for i in range(n)]), index) for j in range(m)}
+        df = pd.DataFrame(data, index=index)
         df.columns = _index(cols)
         return df
     raise ValueError('bad node head %r' % (head,))
@@ -138,6 +172,11 @@ def _index(labels):
     if any(isinstance(c, float) for c in labels) and any(isinstance(c, int) and not isinstance(c, bool) and abs(c) >= 2 ** 53 for c in labels):
         return pd.Index(labels, dtype=object)
     return pd.Index(labels)
+
+
+def _series(col, index):
+    """a column kept as objects stays objects (pandas would infer datetime64 from an object array of NaT / NaN and turn the NaN into NaT)"""
+    return pd.Series(col, index=index, dtype=object if isinstance(col, np.ndarray) and col.dtype == object else None)
 
 
 def _lossy(cells):
@@ -154,8 +193,10 @@ def _column(cells, as_objects=False):
         return a
     if not cells:
         return np.array([], dtype=float)
-    if _lossy(cells):
-        a = np.empty(len(cells), dtype=object)     # a float column would round the big ints: keep the cells as they are spelled
+    timelike = any(c is pd.NaT or isinstance(c, (datetime.datetime, datetime.timedelta)) for c in cells)
+    if _lossy(cells) or (timelike and any(isinstance(c, float) and c != c for c in cells)):
+        # a float column would round the big ints, a datetime column would turn a float NaN into NaT: keep the cells as they are spelled
+        a = np.empty(len(cells), dtype=object)
         for i, c in enumerate(cells):
             a[i] = c
         return a
@@ -174,7 +215,7 @@ def kind(sx):
 def plain(sx):
     """NaN-free value built from python scalars, lists, tuples and plain dicts only"""
     if isinstance(sx, str):
-        return not sx.endswith(':nan') and sx[:3] not in ('NI:', 'NF:', 'NB:', 'HF:')    # numpy scalars broadcast under ==
+        return not sx.endswith(':nan') and sx[:3] not in ('NI:', 'NF:', 'NB:', 'HF:', 'NaT') and sx[:2] not in ('M8', 'm8')    # numpy scalars broadcast under ==; NaT != NaT
     if sx[0] in ('L', 'T'):
         return all(plain(y) for y in sx[1:])
     if sx[0] == 'D':
@@ -200,6 +241,19 @@ def universe():
          S(['2020-01-01'], 1.0), S([D(2020, 1, 1)], 1.0), S(['2020-01-01 00:00'], 1.0), S([ts], 1.0),
          DF([0], ['2020-01-01'], 1.0), DF([0], [D(2020, 1, 1)], 1.0), DF([0], ['1/1/2020'], 1.0),
          S([nan], 1.0), S([0.0, nan], 1.0, 2.0), S([D(2020, 1, 1), nan], 1.0, 2.0), S(['a', nan], 1.0, 2.0), DF([0], [nan], 1.0), DF([nan, 1.0], ['a'], 1.0, 2.0),
+         # numpy time scalars (C14-F6): one instant in several units next to date / datetime / Timestamp (numpy's == casts units: the
+         # day-resolution value is == to the date AND to the Timestamp), NaT of each kind, durations next to the ints numpy says they are == to
+         d64('2020-01-01'), d64('2020-01-01', 'us'), d64('2020-01-01', 'ns'), d64('2020-01-01T00', 'h'), d64('2020-01-02'), d64('2020-01-02T03', 's'),
+         d64('NaT'), t64('NaT'), pd.NaT, [d64('NaT')], [pd.NaT], [d64('2020-01-01')], NS2020,
+         t64(1, 'D'), t64(24, 'h'), t64(DAY_NS, 'ns'), TD(days=1), pd.Timedelta(days=1), t64(1, 'us'), t64(2, 'D'), 24, DAY_NS,
+         # datetime64 / timedelta64 arrays (C14-F7) next to int arrays holding what astype(object) makes of an M8[ns] cell, and to object arrays
+         A('Mns', (1,), D(2020, 1, 1)), A('Mus', (1,), D(2020, 1, 1)), A('MD', (1,), D(2020, 1, 1)), A('Ms', (1,), D(2020, 1, 1)), A('i', (1,), NS2020),
+         A('o', (1,), D(2020, 1, 1)), A('o', (1,), datetime.date(2020, 1, 1)), A('o', (1,), ts), A('o', (1,), d64('2020-01-01')),
+         A('Mns', (2,), D(2020, 1, 1), pd.NaT), A('Mus', (2,), D(2020, 1, 1), pd.NaT), A('Mns', (2,), D(2020, 1, 1), D(2020, 1, 2)), A('Mns', (1, 2), D(2020, 1, 1), pd.NaT),
+         A('mns', (1,), TD(days=1)), A('mD', (1,), TD(days=1)), A('mus', (2,), TD(days=1), pd.NaT), A('i', (1,), DAY_NS), A('o', (1,), TD(days=1)),
+         # NaT cells; an int column beyond 2**53 next to a float column (C14-F8: one float64 view of the frame rounds the ints)
+         S([0, 1], D(2020, 1, 1), pd.NaT), S([0, 1], D(2020, 1, 1), D(2020, 1, 2)), S([0, 1], TD(days=1), pd.NaT), DF([0, 1], ['a'], D(2020, 1, 1), pd.NaT),
+         DF([0], ['a', 'b'], BIG + 1, 0.5), DF([0], ['a', 'b'], BIG, 0.5), DF([0], ['a', 'b'], float(BIG), 0.5), DF([0, 1], ['a', 'b'], BIG + 1, 0.5, BIG + 3, float('nan')),
          # empty containers of each kind
          [], (), {}, DC(1), DC(2), A('f', (0,)), A('f', (0, 3)), A('f', (0, 5)), A('f', (2, 0)), S([]), DF([], []), DF([], ['a']),
          # sequences
@@ -232,7 +286,10 @@ def universe():
 
 SCALARS = [None, True, False, 0, 1, -1, 2, 3, 1.0, 2.0, 2.5, -0.25, '', 'a', 'b', 'ab', D(2020, 1, 1), D(2020, 1, 2), datetime.date(2020, 1, 1),
            pd.Timestamp('2020-01-02'), np.int64(1), np.float64(2.5), np.float64(1.0), np.bool_(False), float('inf'),
-           BIG, BIG + 1, float(BIG), np.int64(BIG + 1), np.float64(BIG), F32(2.5), F32(1.0)]
+           BIG, BIG + 1, float(BIG), np.int64(BIG + 1), np.float64(BIG), F32(2.5), F32(1.0),
+           d64('2020-01-01'), d64('2020-01-01', 'ns'), d64('2020-01-02', 'us'), d64('2020-01-02T00', 'h'), t64(1, 'D'), t64(24, 'h'), TD(days=1), TD(days=2), pd.Timedelta(days=2), 24]
+TIMES = [D(2020, 1, 1), D(2020, 1, 2), D(2020, 1, 2), pd.NaT]
+SPANS = [TD(days=1), TD(days=2), TD(days=2), pd.NaT]
 LABELS = [[0, 1, 2, 3], [1, 2, 3, 4], ['a', 'b', 'c', 'd'], [D(2020, 1, 1), D(2020, 1, 2), D(2020, 1, 3), D(2020, 1, 6)], [0.0, 1.0, 2.0, 3.0],
           ['2020-01-01', '2020-01-02', '2020-01-03', '2020-01-06'], [0.0, float('nan'), 2.0, 3.0], [D(2020, 1, 1), float('nan'), D(2020, 1, 3), D(2020, 1, 6)],
           [BIG, BIG + 1, BIG + 2, BIG + 3], [float(BIG), float(BIG + 2), float(BIG + 4), float(BIG + 6)]]
@@ -244,7 +301,7 @@ LABEL_ALTS = [7, 'q', 2.5, '2020-01-01', D(2020, 1, 1), '2020-01-01 00:00', '1/1
 
 def rand_scalar(rng, nan_rate=0.15):
     if rng.random() < nan_rate:
-        return rng.choice([float('nan'), np.nan, np.float64('nan'), F32(float('nan'))])
+        return rng.choice([float('nan'), np.nan, np.float64('nan'), F32(float('nan')), float('nan'), np.nan, d64('NaT'), t64('NaT'), pd.NaT])
     return rng.choice(SCALARS)
 
 
@@ -258,6 +315,10 @@ def rand_num(rng, dtype):
         return rng.choice([0.0, 1.0, 2.0, 2.5, -0.25, float('nan'), 100000.0, 100000.25])
     if dtype == 'b':
         return rng.choice([True, False])
+    if dtype[0] == 'M':
+        return rng.choice(TIMES)
+    if dtype[0] == 'm':
+        return rng.choice(SPANS)
     return rng.choice(['a', 'b', 'ab', ''])
 
 
@@ -288,18 +349,24 @@ def rand_val(rng, depth):
         return w(items) if c == 0 else DC(c, **items)
     if r < 0.85:
         shape = rand_shape(rng)
-        dtype = rng.choice(['i', 'f', 'f', 'e', 'b', 'U', 'o'])
+        dtype = rng.choice(['i', 'f', 'f', 'e', 'b', 'U', 'o', 'Mns', 'Mus', 'MD', 'mns', 'mD'])
         if dtype == 'o':
             return A('o', shape, *[rand_val(rng, depth - 1) for _ in range(prod(shape))])
         return A(dtype, shape, *[rand_num(rng, dtype) for _ in range(prod(shape))])
     k = rng.choice([0, 1, 2, 2, 3])
     idx = rng.choice(LABELS)[:k]
-    dtype = rng.choice(['i', 'f', 'f', 'U'])
+    dtype = rng.choice(['i', 'f', 'f', 'U', 'Mns', 'x', 'x'])      # x: frame columns alternate int (beyond 2**53 too) and float
     if r < 0.93:
+        dtype = 'f' if dtype == 'x' else dtype
         if rng.random() < 0.15:
             return S(idx, *[rand_val(rng, depth - 1) for _ in range(k)])
         return S(idx, *[rand_num(rng, dtype) for _ in range(k)])
     m = rng.choice([0, 1, 1, 2])
+    if dtype == 'x' or rng.random() < 0.3:      # int columns (mostly beyond 2**53) alternating with float columns
+        k, m = rng.choice([1, 2, 3]), rng.choice([2, 2, 3])
+        idx = rng.choice(LABELS)[:k]
+        cell = lambda n: rng.choice([BIG, BIG + 1, BIG + 1, BIG + 2, 1]) if n % m % 2 == 0 else rand_num(rng, 'f')
+        return DF(idx, rng.choice(COLS)[:m], *[cell(n) for n in range(k * m)])
     cols = rng.choice(COLS)[:m]
     return DF(idx, cols, *[rand_num(rng, dtype) for _ in range(k * m)])
 
@@ -321,7 +388,7 @@ def mutate(rng, sx):
     """a near copy: one leaf changed (possibly to an == value), a container retagged, an array reshaped, a label changed"""
     if isinstance(sx, str):
         v = dec_cell(sx)
-        if isinstance(v, (int, np.integer)) and not isinstance(v, (bool, np.bool_)) and rng.random() < 0.5:
+        if isinstance(v, (int, np.integer)) and not isinstance(v, (bool, np.bool_, np.timedelta64)) and rng.random() < 0.5:
             return proto.enc(float(v))
         return w(rand_scalar(rng))
     head = sx[0]
@@ -360,6 +427,16 @@ def mutate(rng, sx):
             return ['L'] + cells
         if r < 0.55 and dtype == 'i':
             return ['A', 'f', shape] + [proto.enc(float(int(c[2:]))) for c in cells]
+        if r < 0.6 and dtype[0] == 'M':
+            to = rng.choice(['Mns', 'Mus', 'Ms', 'MD', 'o', 'o', 'i', 'i'])
+            if to == 'i' and all(c.startswith('T:') for c in cells):        # what M8[ns].astype(object) holds: ns since 1970
+                return ['A', 'i', shape] + ['I:%d' % ((int(c[2:]) - proto.dt2us(D(1970, 1, 1))) * 1000) for c in cells]
+            return ['A', to if to != 'i' else 'o', shape] + cells
+        if r < 0.6 and dtype[0] == 'm':
+            to = rng.choice(['mns', 'mus', 'mD', 'o', 'i'])
+            if to == 'i' and all(c.startswith('TD:') for c in cells):
+                return ['A', 'i', shape] + ['I:%d' % (int(c[3:]) * 1000) for c in cells]
+            return ['A', to if to != 'i' else 'o', shape] + cells
         if r < 0.6 and dtype in 'fe' and not any(abs(int(c[2:])) > 2 ** 20 for c in cells if not c.endswith('nan')):
             return ['A', {'f': 'e', 'e': 'f'}[dtype], shape] + cells
         if cells:
@@ -378,7 +455,7 @@ def mutate(rng, sx):
             return ['A', 'o', [str(len(cells))]] + cells
         if cells:
             i = rng.randrange(len(cells))
-            return ['S', idx] + cells[:i] + [w(rand_num(rng, rng.choice('if')))] + cells[i + 1:]
+            return ['S', idx] + cells[:i] + [w(rand_num(rng, 'M' if cells[i][:2] in ('T:', 'Na') else rng.choice('if')))] + cells[i + 1:]
         return sx
     if head == 'DF':
         idx, cols, cells = sx[1], sx[2], sx[3:]
@@ -388,6 +465,10 @@ def mutate(rng, sx):
         if r < 0.5 and idx:
             i = rng.randrange(len(idx))
             return ['DF', idx[:i] + [_relabel(rng, idx[i])] + idx[i + 1:], cols] + cells
+        big = [i for i, c in enumerate(cells) if isinstance(c, str) and c.startswith('I:') and abs(int(c[2:])) >= BIG]
+        if big and r < 0.8:
+            i = rng.choice(big)
+            return ['DF', idx, cols] + cells[:i] + ['I:%d' % (int(cells[i][2:]) + rng.choice([-1, 1, 2]))] + cells[i + 1:]
         if cells:
             i = rng.randrange(len(cells))
             return ['DF', idx, cols] + cells[:i] + [w(rand_num(rng, rng.choice('if')))] + cells[i + 1:]
@@ -432,6 +513,22 @@ def generate(rng, tier):
     for x in U:
         for y in U:
             yield dict(tag='eq-universe', lines=['(eq eq %s %s)' % (x, y)])
+    # the raising reading eqR against the code: empty / 0-d / differently shaped containers of every kind are where its error branches sit
+    R = [x for x in U if kind(proto.parse(x)) != 'scalar']
+    for x in R:
+        for y in R:
+            if kind(proto.parse(x)) == kind(proto.parse(y)):
+                yield dict(tag='eqr-universe', lines=['(eq eqr %s %s)' % (x, y)])
+    # eqPinned (the variant of eqR with the ndarray branch as it was before fix F6c: len() of a 0-d array, broadcasting veq, np.vectorize
+    # on a size-0 result) against that version of the code, read from the repository's history: real exceptions, not prose
+    if pinned_eq() is not None:
+        P = [x for x in U if kind(proto.parse(x)) == 'A' and proto.parse(x)[1] in 'ifbU']
+        for x in P:
+            for y in P:
+                yield dict(tag='eqpinned-universe', lines=['(eq eqpinned %s %s)' % (x, y)])
+        for _ in range(400 if tier == 'quick' else 6000):
+            x, y = pinned_pair(rng)
+            yield dict(tag='eqpinned-random', lines=['(eq eqpinned %s %s)' % (x, y), '(eq eqpinned %s %s)' % (y, x)])
     n = 1500 if tier == 'quick' else 40000
     for _ in range(n):
         x, y = rand_pair(rng)
@@ -450,6 +547,54 @@ def generate(rng, tier):
             yield dict(tag='python==', lines=['(eq pyeq %s %s)' % (x, y)])
 
 
+# ---------------------------------------------------------------- the pinned ndarray branch (before fix F6c) as an implementation
+
+_PINNED = {}
+
+
+def pinned_eq():
+    """`eq` of src/pyg_base/_eq.py as it was just before the F6c fix (the commit is looked up in known_findings.d/C14.json): the
+    scalar-vs-container and dict fixes are in, the ndarray branch is the pinned one (len() instead of shape, broadcasting veq).
+    None when that version cannot be read from the repository's history."""
+    if 'eq' not in _PINNED:
+        import json, os, subprocess, types
+        from ..engine import REPO, VERIF
+        _PINNED['eq'] = None
+        try:
+            commit = [k['commit'] for k in json.load(open(os.path.join(VERIF, 'known_findings.d', 'C14.json'))) if k['id'] == 'F6c'][0]
+            src = subprocess.run(['git', '-C', REPO, 'show', '%s^:src/pyg_base/_eq.py' % commit], stdout=subprocess.PIPE,
+                                 stderr=subprocess.DEVNULL, text=True, timeout=30)
+            if src.returncode == 0 and 'def eq(' in src.stdout:
+                mod = types.ModuleType('pyg_base_eq_pinned')
+                exec(compile(src.stdout, 'pinned/_eq.py', 'exec'), mod.__dict__)
+                _PINNED['eq'] = mod.eq
+        except Exception:
+            pass
+    return _PINNED['eq']
+
+
+PIN_SHAPES = [(), (1,), (2,), (2,), (3,), (1, 2), (2, 1), (2, 2), (2, 3), (1, 3), (3, 1), (0,), (0, 2), (2, 0), (0, 3), (0, 5), (1, 2, 2), (2, 1, 2)]
+
+
+def pinned_pair(rng):
+    """two arrays of plain numbers: equal, reshaped, broadcastable onto each other, of another length, 0-d, of size 0"""
+    dtype = rng.choice('iiffb')
+    cell = lambda: rand_num(rng, dtype) if dtype != 'i' else rng.choice([0, 1, 1, 2])
+    sx = rng.choice(PIN_SHAPES)
+    xs = [cell() for _ in range(prod(sx))]
+    r = rng.random()
+    if r < 0.25:
+        sy, ys = sx, list(xs)
+    elif r < 0.6:
+        sy = rng.choice(PIN_SHAPES)
+        base = xs[:sx[-1]] if sx and rng.random() < 0.5 else xs       # a row of x, repeated: what broadcasting compares
+        ys = [(base or [cell()])[i % max(1, len(base))] for i in range(prod(sy))]
+    else:
+        sy = rng.choice(PIN_SHAPES)
+        ys = [cell() for _ in range(prod(sy))]
+    return A(dtype, sx, *xs), A('f' if dtype == 'i' and rng.random() < 0.2 else dtype, sy, *ys)     # ints are exact floats
+
+
 # ---------------------------------------------------------------- implementation runner
 
 def _bool(r):
@@ -461,20 +606,46 @@ def _bool(r):
 def run_line(state, sx):
     import pyg_base
     op, args = sx[1], sx[2:]
-    if op == 'eq':
+    if op in ('eq', 'eqr'):       # eqr: the model answers with the raising reading eqR (an exception here becomes `err Kind` in the engine)
         return _bool(pyg_base.eq(dec(args[0]), dec(args[1])))
     if op == 'in':
         return _bool(pyg_base.in_(dec(args[0]), dec(args[1])))
+    if op == 'eqpinned':
+        return _bool(pinned_eq()(dec(args[0]), dec(args[1])))
     if op == 'pyeq':
         return _bool(dec(args[0]) == dec(args[1]))
     return 'bad-op'
 
 
 def _nan_spelling(x):
-    """a NaN is a NaN whichever object holds it: python float, the shared np.nan, an np.float64 scalar"""
+    """a NaN is a NaN whichever object holds it: python float, the shared np.nan, an np.float64 scalar; NaT likewise"""
     if isinstance(x, str):
-        return 'F:nan' if x in ('NF:nan', 'XF:nan', 'HF:nan') else x
+        return 'F:nan' if x in ('NF:nan', 'XF:nan', 'HF:nan') else 'NaT:P' if x.startswith('NaT:') else x
     return [_nan_spelling(y) for y in x]
+
+
+def cells_of(v):
+    """the cells of an array / Series / DataFrame as numpy / pandas hand them out one by one"""
+    if isinstance(v, np.ndarray):
+        return [v[i] for i in np.ndindex(v.shape)]
+    if isinstance(v, pd.Series):
+        return [v.iloc[i] for i in range(len(v))]
+    if isinstance(v, pd.DataFrame):
+        return [v.iat[i, j] for i in range(v.shape[0]) for j in range(v.shape[1])]
+    return None
+
+
+def cells_differ(sx, sy):
+    """'arrays are equal only if ... all cells match': a position at which two arrays / pandas objects of one shape hold cells that
+    the implementation's own eq tells apart, else None"""
+    import pyg_base
+    cx, cy = cells_of(dec(sx)), cells_of(dec(sy))
+    if cx is None or cy is None or len(cx) != len(cy):
+        return None
+    for i, (a, b) in enumerate(zip(cx, cy)):
+        if not pyg_base.eq(a, b):
+            return (i, a, b)
+    return None
 
 
 def compare(case, i, line, ir, mr):
@@ -483,9 +654,11 @@ def compare(case, i, line, ir, mr):
     sx = proto.parse(line)
     if sx[1] == 'pyeq':
         return ('divergence', 'python == gives %s, the reference function pyEqV %s' % (ir, mr))
+    if sx[1] == 'eqpinned':
+        return ('divergence', 'the ndarray branch as it was before fix F6c gives %s, its model eqPinned %s' % (ir, mr))
     if not ir.startswith('ok B:'):
         return 'eq/in_ must return a boolean and never raise: %s (model: %s)' % (ir, mr)
-    if sx[1] == 'eq':
+    if sx[1] in ('eq', 'eqr'):
         x, y = sx[2], sx[3]
         if x == y or _nan_spelling(x) == _nan_spelling(y):
             return 'eq(x, structural copy of x holding other NaN objects) is False'
@@ -493,6 +666,9 @@ def compare(case, i, line, ir, mr):
             return 'eq is True although the container types differ (%s vs %s)' % (kind(x), kind(y))
         if shape_of(x) != shape_of(y) or labels_of(x) != labels_of(y):
             return 'eq is True although shape / index / columns differ'
+        bad = cells_differ(x, y) if ir == 'ok B:1' else None
+        if bad:
+            return 'eq is True although the cells at position %d are not eq (%r vs %r)' % bad
         if plain(x) and plain(y):
             return 'eq(x, y) = %s but x == y is %s on NaN-free plain values' % (ir, dec(x) == dec(y))
         k = _float_cell_differs(x, y)
@@ -584,6 +760,11 @@ def laws_on(U, label, full_triples=True, rng=None):
                               'eq is True although shapes / axis lengths differ (%s vs %s)' % (shape_of(P[i]), shape_of(P[j])))
             if m and kind(P[i]) == kind(P[j]) and labels_of(P[i]) != labels_of(P[j]):
                 yield Finding('violation', dict(tag='law-labels-' + label, lines=[line(i, j)]), 'eq is True although index / columns differ')
+            if m and kind(P[i]) == kind(P[j]) and kind(P[i]) in ('A', 'S', 'DF') and shape_of(P[i]) == shape_of(P[j]):
+                bad = cells_differ(P[i], P[j])
+                if bad:
+                    yield Finding('violation', dict(tag='law-cells-' + label, lines=[line(i, j)]),
+                                  'eq is True although the cells at position %d are not eq (%r vs %r)' % bad)
             if plain(P[i]) and plain(P[j]):
                 native = dec(P[i]) == dec(P[j])
                 if m != native:
